@@ -6,6 +6,7 @@ import re
 from sa.model import AnalysisError, Unknown, norm, unwrap, EnumMember
 from sa.query import Facts, call_name, find_calls, try_fold, calls_in, kwarg, defs_of
 from sa.exc import ExcAnalysis
+from sa.decide import eval_predicate, accepted_set
 from .common import (dongle_classes, protocol_classes, device_touching, command_methods,
                      firmware, doc)
 from .c11 import _parents, catching_handler
@@ -486,6 +487,16 @@ def _handler_lists(run, fn, D):
     return out
 
 
+def _ranges(vals):
+    out = []
+    for v in sorted(vals):
+        if out and out[-1][1] == v - 1:
+            out[-1][1] = v
+        else:
+            out.append([v, v])
+    return out
+
+
 def _tables(run, fw, D, V2):
     P, A = run.P, run.A
     run.rule("R3", "(a) Python error enums equal the firmware enums (auth.h, bc_err.h) and every value "
@@ -511,27 +522,29 @@ def _tables(run, fw, D, V2):
                   message=f"_AdvanceUpdateError.{cname} is {py_adv.get(cname)} but bc_err.h says {hex(cv)}")
     # is_user_defined_error on all
     isud = P.method(P.cls("ledger.hsm2dongle._Error"), "is_user_defined_error")
-    ret = [n for n in A.own_nodes(isud) if isinstance(n, ast.Return)][0].value
     param = isud.params[0]
+    accepted = accepted_set(A, isud, None, param)
+    run.extra["is_user_defined_error_accepts"] = [f"{hex(a)}-{hex(b)}" for a, b in _ranges(accepted)]
 
-    def evb(e, code):
-        if isinstance(e, ast.BoolOp):
-            vs = [evb(v, code) for v in e.values]
-            return all(vs) if isinstance(e.op, ast.And) else any(vs)
-        if isinstance(e, ast.Compare) and len(e.ops) == 1 and isinstance(e.left, ast.Name) and e.left.id == param:
-            ok, k = try_fold(P, e.comparators[0], isud)
-            if not ok:
-                raise AnalysisError("is_user_defined_error: non-constant bound")
-            op = e.ops[0]
-            return {ast.GtE: code >= k, ast.LtE: code <= k, ast.Gt: code > k, ast.Lt: code < k,
-                    ast.Eq: code == k, ast.NotEq: code != k}[type(op)]
-        raise AnalysisError("is_user_defined_error: shape not understood (UNDECIDED)")
+    def evb(_ret, code):
+        return code in accepted
+    ret = None
     allv = {**{n: v for n, v in c_auth.items()}, **{n: v for n, v in c_bc.items() if v}}
     for ecls in ("_SignError", "_GetPubKeyError", "_AdvanceUpdateError", "_UIError",
                  "_UIAttestationError", "_SignerAuthorizationError"):
         for mn, mv in P.enum_members(P.cls("ledger.hsm2dongle." + ecls)).items():
             if isinstance(mv.value, int) and mv.value:
                 allv[f"{ecls}.{mn}"] = mv.value
+    # apdu.h: the instruction-not-supported status is an answer of the device too
+    apdu = fw.file("common/src/apdu.h").all_enum_members()
+    run.require("ERR_INS_NOT_SUPPORTED" in apdu, "apdu.h: ERR_INS_NOT_SUPPORTED vanished")
+    allv["apdu.h ERR_INS_NOT_SUPPORTED"] = apdu["ERR_INS_NOT_SUPPORTED"]
+    # ... and what is not an answer of the device must stay outside: ledgerblue's default status word of a CommException
+    # raised without one (time-outs, transport failures) and the success status
+    for nm_, sw_ in (("ledgerblue CommException default status (time-outs / transport failures)", 0x6F00), ("APDU_OK", apdu.get("APDU_OK", 0x9000))):
+        run.check("R3", sw_ not in accepted, f"{hex(sw_)} ({nm_}) is not classified as a device error result", key=f"is_user_defined_error|not|{hex(sw_)}",
+                  where=isud.loc(), message=f"is_user_defined_error accepts {hex(sw_)} ({nm_}): a time-out or a transport failure would be reported as a device "
+                  "error result (wrong reply code, no reconnection) instead of a device-unreachable answer")
     for n, v in sorted(allv.items()):
         run.check("R3", evb(ret, v), f"{n}={hex(v)} classified as a device error result",
                   key=f"is_user_defined_error|{n}", where=isud.loc(),
